@@ -188,7 +188,8 @@ class Workspace(AbstractContextManager):
         if not self._geoh5:
             return
 
-        if self.geoh5.mode in ["r+", "a"]:
+        writable = self.geoh5.mode in ["r+", "a"]
+        if writable:
             for entity in self.groups:
                 if isinstance(entity, Concatenator) and self.repack:
                     self.update_attribute(entity, "concatenated_attributes")
@@ -199,6 +200,7 @@ class Workspace(AbstractContextManager):
 
         if (
             self.repack
+            and writable
             and not isinstance(self._h5file, BytesIO)
             and self._h5file is not None
         ):
